@@ -483,6 +483,8 @@ def check(pid, tier, seed, only_random=False, extra=None):
         extra = c16_parts
     elif extra is None and pid == "C04":
         extra = c04_parts
+    elif extra is None and pid in ("C01", "C07"):
+        extra = framing_parts
     elif extra is None and pid in EST_TAGS:
         extra = est_part
     if extra is not None:
@@ -546,6 +548,16 @@ def c16_parts(pid, tier, seed, rnd):
     _merge(c1, "xpoll", c2)
     _merge(c1, "timer_mgr", c3)
     return v1 + v2 + v3, c1, n1 + n2 + n3
+
+
+def framing_parts(pid, tier, seed, rnd):
+    """C01 / C07 = establishment-phase traces + spec/Mbuf.tla against the real mbuf.h (the framing of tcp / tls: frames are
+    assembled from any split of chunks exactly; a hostile length field is never taken for a message)"""
+    import mbuf
+    v1, c1, n1 = est_part(pid, tier, seed, rnd)
+    v2, c2, n2 = mbuf.part(pid, tier, seed, rnd)
+    _merge(c1, "mbuf", c2)
+    return v1 + v2, c1, n1 + n2
 
 
 def c04_parts(pid, tier, seed, rnd):
@@ -707,6 +719,9 @@ def replay(pid, path):
     if path.endswith(".tms"):
         import timer
         return timer.replay(pid, path)
+    if path.endswith(".mbs"):
+        import mbuf
+        return mbuf.replay(pid, path)
     lines0 = [l.rstrip("\n") for l in open(path) if l.strip() and not l.startswith("#")]
     if lines0 and len(lines0[0].split()) >= 4 and lines0[0].split()[3] in ("normal", "refused", "silent", "release", "mute", "garbage", "idle", "ctlflood", "blocking", "garbage2", "longidle", "accblk", "badski", "accfail", "ctl3"):
         import est
